@@ -82,17 +82,18 @@ static Plan gen_rand(uint64_t seed, const Op &opts) {
     p.cfg.setu("kseed", mix64(opts.getu("keybase", 7) ^ 0xc07, seed));   // a fresh key per run: key-row statistics never count a key twice
     std::string only = opts.gets("ops", "");
     int nops = (int) opts.geti("nops", 5);
-    static const char *kinds[] = {"reseed", "lwe", "tlwe", "tgsw", "gate", "keys", "keybits"};
+    static const char *kinds[] = {"reseed", "lwe", "tlwe", "tgsw", "gate", "keys", "keybits", "lwemix"};
     bool have_keys = false;
     for (int j = 0; j < nops; j++) {
         std::string k;
         int guard = 0;
-        do k = kinds[r.below(7)]; while (guard++ < 100 && ((!only.empty() && only.find(k) == std::string::npos) || (k == "keys" && have_keys)));
+        do k = kinds[r.below(8)]; while (guard++ < 100 && ((!only.empty() && only.find(k) == std::string::npos) || (k == "keys" && have_keys)));
         if (k == "keys") { if (have_keys) continue; have_keys = true; }   // the rows of one key enter the statistics once
         Op o; o.kind = "op"; o.set("k", k).setu("s", r.next());
         if (k == "reseed") o.seti("hist", (int) r.below(8)).seti("thread", (int) r.below(2)).seti("variant", (int) r.below(6));
         if (k == "lwe" || k == "tlwe" || k == "tgsw") o.seti("ai", (int) r.below(NALPHA)).seti("cnt", k == "lwe" ? 400 : k == "tlwe" ? 3 : 1).seti("n", (int) (k == "lwe" ? (r.bern(0.5) ? 630 : 1 + r.below(64)) : 0)).seti("rk", 1 + (int) r.below(2));
         if (k == "gate") o.seti("cnt", 1500);
+        if (k == "lwemix") o.seti("ai", (int) r.below(NALPHA)).seti("ai2", (int) r.below(NALPHA)).seti("ai3", (int) r.below(NALPHA)).seti("cnt", 600).seti("n", (int) (1 + r.below(48))).seti("pat", (int) r.below(3));
         p.ops.push_back(o);
     }
     return p;
@@ -155,12 +156,36 @@ static void exec_rand(const Plan &p, RunResult &r) {
                 watch_begin(); lweSymEncrypt(c, mu, alpha, lk); std::string w; if (watch_end(&w)) r.v.raise("entropy-use", "C07.watchdog", "lweSymEncrypt called " + w, (int) oi);
                 int32_t e = sdiff(obs::lwe_phase(c, lk->key, n), (uint32_t) mu);
                 acc.add((double) e / au);
+                if (std::fabs((double) e) > 12 * au + 2) r.v.raise("noise-outlier", "C07.outlier", fmt("fresh LWE sample requested with alpha=%.3g carries a phase error of %d units = %.1f sigma", alpha, e, std::fabs((double) e) / au), (int) oi);
                 for (int j = 0; j < n; j++) ma.add((uint32_t) c->a[j]);
                 uint64_t hh = hash_bytes(c->a, (size_t) n * 4); if (n >= 2 && hh == prevh) repeats++; prevh = hh;
                 if (std::fabs(c->current_variance - alpha * alpha) > 1e-18 + 1e-9 * alpha * alpha) r.v.raise("variance-annotation", "C07.annotation", "lweSymEncrypt did not annotate the configured variance", (int) oi);
             }
             if (repeats) r.v.raise("mask-repeated", "C07.mask", fmt("%d consecutive LWE encryptions reused the same mask", repeats), (int) oi);
             put(r, fmt("z.lwe.%d", (int) (o.geti("ai") % NALPHA)), acc); ma.put(r, "mask.lwe");
+            r.ev.u64(obs::hash_lwe(c, n));
+            delete_LweSample(c); delete_LweKey(lk); delete_LweParams(lp);
+        } else if (k == "lwemix") {
+            // history: the requested noise level changes from one draw to the next (strict alternation, random order, odd-length
+            // blocks) and single direct draws are interspersed: a sampler that carries state from one call into the next would
+            // hand a sample the previous call's deviation.  Every sample is attributed to the level it was requested with.
+            int n = (int) o.geti("n", 16), cnt = (int) o.geti("cnt", 600), pat = (int) o.geti("pat");
+            int ais[3] = {(int) (o.geti("ai") % NALPHA), (int) (o.geti("ai2") % NALPHA), (int) (o.geti("ai3") % NALPHA)};
+            LweParams *lp = new_LweParams(n, 1e-3, 0.2); LweKey *lk = new_LweKey(lp); lweKeyGen(lk);
+            LweSample *c = new_LweSample(lp);
+            Acc acc[3]; int w = 0, left = 0;
+            for (int i = 0; i < cnt && !r.v.set; i++) {
+                if (pat == 0) w = i % 2; else if (pat == 1) w = (int) rr.below(3); else { if (left == 0) { w = (w + 1 + (int) rr.below(2)) % 3; left = 1 + 2 * (int) rr.below(2); } left--; }
+                double alpha = ALPHAS[ais[w]], au = alpha * 4294967296.0; int32_t e;
+                if (rr.bern(0.15)) e = gaussian32(0, alpha);
+                else { int32_t mu = (int32_t) rr.next(); lweSymEncrypt(c, mu, alpha, lk); e = sdiff(obs::lwe_phase(c, lk->key, n), (uint32_t) mu);
+                       if (std::fabs(c->current_variance - alpha * alpha) > 1e-18 + 1e-9 * alpha * alpha) r.v.raise("variance-annotation", "C07.annotation", "lweSymEncrypt did not annotate the configured variance", (int) oi); }
+                acc[w].add((double) e / au);
+                // a single draw beyond 12 sigma (+ discretisation) has probability < 1e-32
+                if (std::fabs((double) e) > 12 * au + 2) r.v.raise("noise-outlier", "C07.outlier", fmt("fresh sample requested with alpha=%.3g carries a phase error of %d units = %.1f sigma (draw %d of a sequence mixing the levels %.3g, %.3g, %.3g, pattern %d)", alpha, e, std::fabs((double) e) / au, i, ALPHAS[ais[0]], ALPHAS[ais[1]], ALPHAS[ais[2]], pat), (int) oi);
+            }
+            for (int q = 0; q < 3; q++) put(r, fmt("z.lwe.%d", ais[q]), acc[q]);
+            r.probes.add("mixed_noise_level_sequences");
             r.ev.u64(obs::hash_lwe(c, n));
             delete_LweSample(c); delete_LweKey(lk); delete_LweParams(lp);
         } else if (k == "tlwe" || k == "tgsw") {
@@ -280,7 +305,10 @@ static Plan gen_enc(uint64_t seed, const Op &opts) {
         do k = kinds[r.below(6)]; while (!only.empty() && only.find(k) == std::string::npos);
         Op o; o.kind = "op"; o.set("k", k).setu("s", r.next());
         int M;
-        switch (r.below(4)) { case 0: M = 2 + (int) r.below(63); break; case 1: M = 1 << (1 + (int) r.below(14)); break; case 2: M = 2 + (int) r.below(32766); break; default: { static const int ms[] = {2, 3, 4, 5, 6, 7, 8, 10, 12, 100, 1000, 2048, 4096, 32768}; M = ms[r.below(14)]; } }
+        switch (r.below(6)) { case 0: M = 2 + (int) r.below(63); break; case 1: M = 1 << (1 + (int) r.below(24)); break; case 2: M = 2 + (int) r.below(32766); break;
+                              case 3: M = 2 + (int) r.below((1u << 24) - 1); break;    // large message spaces, mostly not powers of two (alpha = 1/(20 M) stays >= 12 units)
+                              case 4: { static const int big[] = {50000, 65535, 65537, 100000, 1000003, (1 << 20) - 1, (1 << 20) + 1, (1 << 22) + 5, (1 << 24) - 1, 10000019}; M = big[r.below(10)]; break; }
+                              default: { static const int ms[] = {2, 3, 4, 5, 6, 7, 8, 10, 12, 100, 1000, 2048, 4096, 32768}; M = ms[r.below(14)]; } }
         if (k == "tgsw") M = 1 << (1 + (int) r.below(8));   // power of two <= Bg (Bg = 2^8 .. 2^10 below)
         o.seti("M", M).seti("amax", (int) r.below(3)).seti("rk", 1 + (int) r.below(2)).seti("n", (int) (r.bern(0.3) ? 630 : 1 + r.below(40))).seti("wire", r.bern(0.2) ? 1 : 0);
         p.ops.push_back(o);
@@ -369,6 +397,7 @@ static void exec_enc(const Plan &p, RunResult &r) {
                 delete_TorusPolynomial(msg); delete_TorusPolynomial(dec);
             }
             if (M & (M - 1)) r.probes.add("msize_not_power_of_two");
+            if (M > 50000) r.probes.add("msize_above_50000");
             delete_TLweSample(c); delete_TLweKey(key); delete_TLweKey(other); delete_TLweParams(tp);
         } else if (k == "tgsw") {
             const int N = 1024; int kk = (int) o.geti("rk", 1);
